@@ -221,6 +221,26 @@ func flateCtor(level int) func(io.Writer) wsflate.Compressor {
 
 func flateDtor(rd io.Reader) wsflate.Decompressor { return flate.NewReader(rd) }
 
+// resettableDecomp is a decompressor that offers the optional
+// wsflate.ReadResetter interface (compress/flate's reader does not: its Reset
+// takes a dictionary), so that wsflate.Reader.Reset takes its reuse path.
+type resettableDecomp struct{ io.ReadCloser }
+
+func (d resettableDecomp) Reset(r io.Reader) { d.ReadCloser.(flate.Resetter).Reset(r, nil) }
+
+func flateDtorResettable(rd io.Reader) wsflate.Decompressor {
+	return resettableDecomp{flate.NewReader(rd)}
+}
+
+// drawDtor picks one of the two decompressor kinds.
+func drawDtor(r *eng.Run) func(io.Reader) wsflate.Decompressor {
+	if r.T.Bool(sim.LCfg) {
+		r.Probe("decompressor_with_read_resetter")
+		return flateDtorResettable
+	}
+	return flateDtor
+}
+
 func drawMessage(r *eng.Run) []byte {
 	n := []int{0, 1, 5, 100, 1000, 5000, 40000}[r.T.Int(sim.LLen, 7)]
 	b := make([]byte, n)
@@ -341,7 +361,8 @@ func c18FlateReader(r *eng.Run) {
 		first = nil // documented: NewReader(nil, ...) then Reset
 		mode1 = 4
 	}
-	fr := wsflate.NewReader(first, flateDtor)
+	dtor := drawDtor(r)
+	fr := wsflate.NewReader(first, dtor)
 	buf := make([]byte, drawBuf(r))
 	switch mode1 {
 	case 3:
@@ -354,7 +375,7 @@ func c18FlateReader(r *eng.Run) {
 		fr.Close()
 	}
 	fr.Reset(mk(c2))
-	fresh := wsflate.NewReader(mk(c2), flateDtor)
+	fresh := wsflate.NewReader(mk(c2), dtor)
 	r.Note("C18 wsflate.Reader.Reset first life mode=%d (%d bytes) second life %d bytes byteReader %v->%v", mode1, len(m1), len(m2), byteReader1, byteReader)
 	r.Res.Nontrivial = true
 	da, ta := readAllTranscript(fr, len(buf))
